@@ -194,6 +194,9 @@ impl MemfsEntry {
 //@ item entry_alt_buf file=src/sys/fs/memfs/entry.rs block="impl Entry for MemfsEntry" fn=alt_buf props=C10,C12
     pub fn alt_buf(&self) -> (r: PathBuf) ensures r.comps() == self.alt.comps()
 //@ body
+//@ item entry_rel file=src/sys/fs/memfs/entry.rs block="impl Entry for MemfsEntry" fn=rel props=C10,C12
+    pub fn rel(&self) -> (r: &PathBuf) ensures r.comps() == self.rel.comps()
+//@ body
 //@ item entry_rel_buf file=src/sys/fs/memfs/entry.rs block="impl Entry for MemfsEntry" fn=rel_buf props=C10,C12
     pub fn rel_buf(&self) -> (r: PathBuf) ensures r.comps() == self.rel.comps()
 //@ body
